@@ -150,6 +150,11 @@ func runC15(w *World, tr *Trace) {
 				meta["_access_count"] = num(float64(r.Intn(5)))
 			}
 			vec := []float32{1, float32(i%3) * 0.25}
+			if r.Intn(3) == 0 {
+				// the same memory through the batch API (and its own timestamping code)
+				ops = append(ops, Op{K: pick(r, []string{"addbatch", "addbatch", "import"}), Idx: c15Index, ID: fmt.Sprintf("m%d", i), Items: []Item{{ID: fmt.Sprintf("m%d", i), Vec: vec, Meta: meta}}})
+				continue
+			}
 			ops = append(ops, Op{K: "add", Idx: c15Index, ID: fmt.Sprintf("m%d", i), Vec: vec, Meta: meta})
 			if r.Intn(3) == 0 {
 				// a twin: same vector, same metadata
@@ -231,12 +236,37 @@ func runC15(w *World, tr *Trace) {
 			case "advance":
 				advance(time.Duration(op.D))
 				continue
-			case "add":
+			case "add", "addbatch", "import":
 				oc := m.Apply(op, now)
 				err, _ := w.exec(op)
 				settle()
 				if (err != nil) != oc.Reject {
 					w.Fail("history", "accept_reject_add", fmt.Sprintf("op %d %s err=%v model reject=%v", i, op.String(), err, oc.Reject), i)
+				}
+				// the age of a memory is counted from the creation time its owner supplied, whichever API stored it
+				if err == nil {
+					var supplied map[string]any
+					if op.K == "add" {
+						supplied = op.Meta
+					} else if len(op.Items) > 0 {
+						supplied = op.Items[0].Meta
+					}
+					if ca, ok := modelMeta(supplied)["_created_at"]; ok {
+						num := func(v any) float64 {
+							switch x := v.(type) {
+							case float64:
+								return x
+							case int:
+								return float64(x)
+							case int64:
+								return float64(x)
+							}
+							return math.NaN()
+						}
+						if vd, gerr := w.E.VGet(c15Index, op.ID); gerr == nil && num(vd.Metadata["_created_at"]) != num(ca) {
+							w.Fail("decay_matches_model", "created_at_overwritten", fmt.Sprintf("op %d %s: _created_at supplied as %v, stored as %v", i, op.K, ca, vd.Metadata["_created_at"]), i)
+						}
+					}
 				}
 				continue
 			case "reinforce":
